@@ -2,6 +2,7 @@
 from __future__ import annotations
 
 import json
+import time
 from typing import List
 
 from harness.lib.core import VERIF, Ctx, lean_lock, load_findings, run_driver, shrink_ops, sig_matches
@@ -11,24 +12,39 @@ from harness.rigs import link as rig
 MANIFEST = {
     "text": "Lean 4 proof, for every network of wired links and wireless channels, every history of ticks and actions, and every tree "
             "of transmissions (sends nested inside deliveries to any depth, over any mix of links, floods, interfaces going up and down "
-            "even in the middle of a delivery), that the model of Link/AirSpace accounting keeps every load within its capacity after "
-            "every send_frame and at the end, that a frame that does not fit is dropped at the sender with nothing changed, that a frame "
-            "is handed to a receiving interface only while both end interfaces are enabled (wireless: only enabled other interfaces "
-            "receive), and that a tick resets every load to zero. Tie: admission tests, order of reserve/deliver/roll-back and of "
-            "stamp/admit in the three send_frame methods, the reset and is_up shapes regenerated from the source (Gen/Link.lean, "
-            "obligations C18_gen_*) + differential rig R-link that records the real call tree of send_frame on generated networks "
-            "(tight bandwidths, ARP+ping, floods through switches, router hops, wireless, FTP, bursts, interface toggles) and replays it "
-            "through the model, comparing verdicts and loads as exact byte counts. Deepened: the data carried per link / sent per channel is "
-            "proved within capacity for every tick of every history with no side condition (F-40 repaired), per frequency name when two names "
-            "share a hz, and the far interface's answer is compared with C08's acceptance model.",
+            "even in the middle of a delivery, deliveries cut short by an exception anywhere: the reservation then stays), that the model "
+            "of Link/AirSpace accounting keeps every load within its capacity after every send_frame and at the end, that a frame that "
+            "does not fit is dropped at the sender with nothing changed, that a frame is handed to a receiving interface only while both "
+            "end interfaces are enabled and only if load + size <= the capacity then in force (no hypothesis at all), and that a tick "
+            "resets every load to zero; the data carried per link / sent per channel is within capacity in every tick of every history, "
+            "per frequency name when two names share a hz. Capacity changes between actions (link.bandwidth reassigned, "
+            "set_frequency_max_capacity_mbps in mid-episode) are modelled: 'load <= capacity' then needs the explicit decidable side "
+            "condition that no capacity is put below the load of the moment (counterexample proved); without it, for every bound C the data "
+            "admitted against capacities <= C is <= C in every tick (so a link carries no more than the largest bandwidth it had while "
+            "admitting). Floats: the accounting routed through any rounding that returns representable results unchanged and is monotone "
+            "is proved EQUAL to the natural-number model on every tree while bandwidths are below 2^53 bytes (sizes are whole bytes * 2^-17 "
+            "Mbit, so no operation rounds: epsilon = 0); the bandwidth enters by its floor. Tie: admission tests, order of "
+            "reserve/deliver/roll-back and of stamp/admit in the send_frame methods, the reset and is_up shapes regenerated from the source "
+            "(Gen/Link.lean, obligations C18_gen_*), plus regenerated INVENTORIES each equal to a list in the proof: every class of the "
+            "NetworkInterface hierarchy that defines send_frame/enable/disable with its step order, every writer of a bandwidth / frequency "
+            "capacity, every try statement under simulator/network and simulator/system, every caller that turns a payload into a request, "
+            "every call that can toggle an interface. Differential rig R-link records the real call tree of send_frame (wrapping exactly "
+            "the classes of the inventory, cross-checked against the classes at run time) on generated networks (tight bandwidths, ARP+ping, "
+            "floods through switches, router hops, wireless, FTP, bursts, interface toggles by the real Terminal / the real C2 beacon / a "
+            "remote shutdown / a test double, exceptions raised inside deliveries, capacity changes in mid-tick, bandwidth = exact sum of k "
+            "frames and one ulp beside it) and replays it through the model, comparing verdicts and loads as exact byte counts; every real "
+            "(float) admission test is also compared with exact rational arithmetic.",
     "note": "C18-specific: frame sizes (JSON length of the frame, F-9) and the far interface's accept/reject answer are inputs to the "
-            "model, not predicted; float arithmetic is outside the model and is checked exact by the rig on every load it reads.",
+            "model, not predicted (the answer is compared with C08's acceptance model); IEEE-754 behaviour (exact when representable, "
+            "monotone) is assumed, not verified; which software raises is not predicted (an exception is an input event).",
     "technique": "Lean 4 theorems over an executable model of link/airspace accounting with nested transmissions; model tied by "
-                 "regenerated tables and a differential rig",
+                 "regenerated tables and inventories and a differential rig",
     "design_ref": "5/C18",
 }
-MODULES = ["PrimaiteModel.Props.C18", "PrimaiteModel.Props.C18Accept"]
+MODULES = ["PrimaiteModel.Props.C18", "PrimaiteModel.Props.C18Accept", "PrimaiteModel.Props.C18Float"]
 EXE = "drv_c18"
+SHRINK_PER_SIG = 2      # failing traces minimised per distinct presumptive signature
+SHRINK_WALL = 40.0      # seconds of minimisation after which further failing traces are reported unminimised
 
 
 def _first_diff(a: List[str], b: List[str]) -> int:
@@ -75,11 +91,26 @@ def run(ctx: Ctx):
         ctx.extract("Link", x_link.emit)
         ctx.prove(MODULES, exes=[EXE], clean=False, leanchecker=ctx.thorough)
     ctx.oblige("rig unit = Gen.Link.bytesPerMbit", "extractor", rig.UNIT == x_link._bytes_per_mbit(), f"{rig.UNIT}")
+    # the extractor's inventory of interface classes (pure ast) against the classes that exist at run time
+    try:
+        inv = x_link.iface_methods()
+    except Exception as e:          # the extractor no longer recognises a shape: already reported by extract:Link
+        inv = None
+        ctx.oblige("interface inventory readable", "extractor", False, f"{type(e).__name__}: {e}")
+    if inv is not None:
+        runtime, _ = rig.runtime_iface_methods()
+        listed = {(c, f, m) for c, f, m, _ in inv}
+        dead = {(c, f, m) for (c, f, m) in listed if f in rig._DEAD_MODULES}
+        ctx.oblige("extractor inventory of NetworkInterface classes x {send_frame, enable, disable} = the classes at run time "
+                   "(modules that cannot be imported excepted)", "extractor", runtime == listed - dead,
+                   f"only at run time: {sorted(runtime - listed)}; only in the source: {sorted(listed - dead - runtime)}")
+        ctx.cov["interface_inventory"] = {"listed": len(listed), "in_modules_that_cannot_be_imported": sorted(f"{f}:{c}.{m}" for c, f, m in dead),
+                                          "dead_modules": dict(rig._DEAD_MODULES)}
     ctx.cov["rule"] = ("case = (topology in {two hosts, 2-4 hosts on a switch, two switches with a trunk, hosts behind a router, hosts behind "
                        "2-3 wireless routers on one or two frequencies}, per-link bandwidth / per-frequency capacity from below one frame to "
                        "100 Mbit (wireless: optionally two frequency names of different capacity on one hz), op sequence of ping / arp / raw "
                        "bursts (unicast, broadcast) / ftp / interface disable-enable / tick / tripwire (interface toggled during a delivery by a "
-                       "test double) / rcmd (interface toggled during a delivery by the real Terminal executing a remote command)); non-trivial when some send is refused for capacity or link state, "
+                       "test double, or an exception raised / raised-and-caught inside a delivery) / rcmd (interface toggled or node powered off during a delivery by the real Terminal executing a remote command) / c2 (the same by the real C2 beacon) / setbw, setcap (capacity reassigned in mid-episode) / bfill, wbfill (capacity := exact sum of k stamped frames, or one ulp beside it)); non-trivial when some send is refused for capacity or link state or lost to an exception, "
                        "or the call tree nests at least two sends deep; distinct by canonical JSON of topology and ops")
     cases = []
     for f in sorted((VERIF / "corpus" / "C18").glob("*.json")):
@@ -94,7 +125,7 @@ def run(ctx: Ctx):
     results, lines_all, bounds = [], [], []
     for name, case in cases:
         try:
-            r = rig.run_impl(case)
+            r = rig.run_impl(case, inv)
         except rig.InexactLoad as e:
             ctx.oblige("loads and sizes are whole byte counts (float sums exact)", "correspondence", False, f"{name}: {e}")
             r = None
@@ -110,6 +141,8 @@ def run(ctx: Ctx):
     known = 0
     open_f = [f for f in load_findings() if f["property"] == "C18" and f.get("status") == "open"]
     maxdepth = 0
+    failing_by_sig: dict = {}
+    shrink_spent = [0.0]
     for (name, case), r, (st, ln) in zip(cases, results, bounds):
         if r is None:
             continue
@@ -135,8 +168,17 @@ def run(ctx: Ctx):
                 if e["t"] in ("S", "W"):
                     if any(c["t"] in ("E", "F") for c in e["children"]):
                         ctx.count("iface-toggle-inside-delivery")
-                        ctx.count("iface-toggle-inside-delivery:" + {"rcmd": "by-the-real-Terminal", "trip": "by-the-test-double"}.get(
+                        ctx.count("iface-toggle-inside-delivery:" + {"rcmd": "by-the-real-Terminal", "trip": "by-the-test-double",
+                                                                     "c2": "by-the-real-C2-beacon"}.get(
                             case["ops"][oi][0], "other:" + case["ops"][oi][0]))
+                        if case["ops"][oi][0] == "rcmd" and case["ops"][oi][3] == ["shutdown"]:
+                            ctx.count("iface-toggle-inside-delivery:node-powered-off-by-a-remote-command")
+        for forest in r["forests"]:
+            for e in rig.walk(forest):
+                if e["t"] == "W" and any(x["t"] == "F" and x["k"] == e["k"] for x in rig.walk(e["children"])):
+                    ctx.count("wireless-iface-toggle-while-a-frame-is-in-the-air-on-its-channel")
+                if e["t"] == "R":
+                    ctx.count("wireless:heard")
         for k, v in r.get("info", {}).items():
             ctx.count("observed:" + k, v)
         if "topo" in case and rig.ALT_NAME in case["topo"].get("freqs", []):
@@ -149,7 +191,9 @@ def run(ctx: Ctx):
         ctx.count("topo:" + (case["topo"]["kind"] if "topo" in case else "scenario:" + case["scenario"]["file"]))
         for op in case["ops"]:
             ctx.count("op:" + op[0])
-        nontrivial = d >= 2 or any(v in ("full", "down", "disabled", "rejected") for v in verdicts)
+        nontrivial = d >= 2 or any(v in ("full", "down", "disabled", "rejected", "lost") for v in verdicts)
+        if r.get("wrapped"):
+            ctx.cov["recorder_wraps"] = sorted(r["wrapped"])
         ctx.case(case, nontrivial)
         if any(m == "bad-op" for m in model):
             raise RuntimeError(f"driver rejected a line of case {name}")
@@ -176,17 +220,32 @@ def run(ctx: Ctx):
                               {"case": case, "oracle": orc[:5], "from": name})
             continue
         kinds = {o["kind"] for o in orc} or {"model-vs-impl"}
+        # Search stage, bounded: `Ctx.finish` writes ONE replay per distinct signature, so only the first failing traces of a
+        # presumptive signature are minimised (each minimisation re-runs the implementation and the driver up to 60 times); the
+        # rest are counted. Without the bound a change that breaks most traces (seeded C18-a: 563 of 920) cost 233 s.
+        pre_sig = json.dumps(_oracle_sig(orc[0]) if orc else {"kind": "model-vs-impl", "line": (r["lines"][di] if di < len(r["lines"]) else "?").split()[0]},
+                             sort_keys=True)
+        failing_by_sig[pre_sig] = failing_by_sig.get(pre_sig, 0) + 1
+        ctx.count("failing-trace:" + (orc[0]["kind"] if orc else "model-vs-impl"))
+        if failing_by_sig[pre_sig] > SHRINK_PER_SIG or shrink_spent[0] > SHRINK_WALL:
+            if failing_by_sig[pre_sig] > SHRINK_PER_SIG:
+                continue            # same class as a trace already minimised and reported
+            small, orc2, di2, r2, model2 = case, orc, di, r, model     # out of search time: reported unminimised
+        else:
+            t1 = time.time()
 
-        def fails(ops, case=case, kinds=kinds):
-            return _fails(dict(case, ops=ops), kinds)
-        small = dict(case, ops=shrink_ops(case["ops"], fails, budget=60))
-        try:
-            orc2, di2, r2, model2 = _eval_case(small)
-            orc2 = [o for o in orc2 if o["kind"] != "exception"]
-        except Exception:
-            orc2, di2, r2, model2 = [], -1, r, model
-        if not orc2 and di2 < 0:
-            small, orc2, di2, r2, model2 = case, orc, di, r, model
+            def fails(ops, case=case, kinds=kinds):
+                return _fails(dict(case, ops=ops), kinds)
+            small = dict(case, ops=shrink_ops(case["ops"], fails, budget=60))
+            try:
+                orc2, di2, r2, model2 = _eval_case(small)
+                orc2 = [o for o in orc2 if o["kind"] != "exception"]
+            except Exception:
+                orc2, di2, r2, model2 = [], -1, r, model
+            if not orc2 and di2 < 0:
+                small, orc2, di2, r2, model2 = case, orc, di, r, model
+            shrink_spent[0] += time.time() - t1
+            ctx.cov["search_wall_s"] = round(shrink_spent[0], 2)
         if orc2:
             o = orc2[0]
             ctx.violation(_oracle_sig(o), f"{o['kind']} ({o.get('medium', '-')}) at op {o['op']} {small['ops'][o['op']]}: {json.dumps(o)}",
